@@ -200,6 +200,63 @@ def run_arith(case, ctx):
         ctx.nontrivial()
 
 
+# ---------------------------------------------------------------- structural operations keep stored names (any row count)
+@st.composite
+def struct_case(draw, tier="quick"):
+    k = draw(st.integers(1, 4))
+    names = draw(st.lists(st.sampled_from(["id", "id", "v", "w", None, "a b", "", "x"]), min_size=k, max_size=k))
+    n = draw(st.sampled_from([0, 0, 1, 2, 3]))
+    how_empty = draw(st.sampled_from(["built", "mask", "slice"]))
+    return {"names": names, "n": n, "how": how_empty, "rev": draw(st.booleans())}
+
+
+def run_struct(case, ctx):
+    names, n = case["names"], case["n"]
+    base_n = n if (n or case["how"] == "built") else 3
+    t = R.build_table([(nm, [(i * 7 + j) % 5 for i in range(base_n)]) for j, nm in enumerate(names)])
+    if n == 0 and case["how"] == "mask":
+        t = t[[False] * base_n]
+    elif n == 0 and case["how"] == "slice":
+        t = t[base_n:]
+    if not isinstance(t, S.Table):
+        return
+    if list(t.column_names()) != names:
+        return ctx.fail("structure/filter-to-empty-lost-names", f"{names} -> {t.column_names()}")
+    ops = {
+        "sort_by-vector": lambda: t.sort_by(t.cols()[0], reverse=case["rev"]),
+        "sort_by-two-keys": lambda: t.sort_by([t.cols()[0], t.cols()[-1]], reverse=[case["rev"], not case["rev"]]),
+        "slice": lambda: t[0:max(0, len(t) - 1)], "reverse-slice": lambda: t[::-1],
+        "mask": lambda: t[[i % 2 == 0 for i in range(len(t))]] if len(t) else t[S.Vector([], dtype=bool)],
+        "copy": lambda: t.copy(), "stack": lambda: t >> S.Vector(list(range(len(t))), name="extra"),
+        "stack-table": lambda: t >> t,
+    }
+    for name, f in ops.items():
+        ctx.ev()
+        try:
+            r = f()
+        except Exception as e:  # noqa: BLE001
+            return ctx.fail(f"structure/{name}/raised/{type(e).__name__}", f"names {names} rows {len(t)}: {e}")
+        if not isinstance(r, S.Table):
+            continue
+        want = names + (["extra"] if name == "stack" else (names if name == "stack-table" else []))
+        if list(r.column_names()) != want:
+            dup = "repeated-names" if len(set(names)) < len(names) else "distinct-names"
+            return ctx.fail(f"structure/{name}/names/{dup}/{'no-rows' if len(t) == 0 else 'rows'}", f"{names} ({len(t)} rows) -> {r.column_names()}")
+    # joins keep left names followed by right names
+    if len(t) and t.cols()[0].schema() is not None:
+        ctx.ev()
+        try:
+            j = t.inner_join(t, t.cols()[0], t.cols()[0], expect="many_to_many")
+        except S.SerifTypeError:
+            j = None
+        if j is not None and len(j) and list(j.column_names()) != names + names:
+            return ctx.fail("structure/join/names", f"{names} join {names} -> {j.column_names()}")
+    if len(set(names)) < len(names) or n == 0:
+        ctx.nontrivial()
+    ctx.label("zero_rows", int(len(t) == 0))
+    ctx.label("repeated_names", int(len(set(names)) < len(names)))
+
+
 # ---------------------------------------------------------------- aggregate / window output names
 def _agg_bases(name):
     if name is None:
@@ -281,6 +338,8 @@ def parts(tier):
                                                                         always=("construct", "derive", "write", "view")),
              examples=(2500, 120000), shards=(8, 16), floors={"deep_ruled": 0.1}),
         Part("arith", run_arith, strategy=lambda t: arith_case(t), examples=(1500, 40000), shards=(2, 16)),
+        Part("structure", run_struct, strategy=lambda t: struct_case(t), examples=(1500, 40000), shards=(2, 16),
+             floors={"zero_rows": 0.2, "repeated_names": 0.2}),
         Part("aggnames", run_aggnames, strategy=lambda t: R.group_case(t), examples=(2000, 60000), shards=(4, 16),
              floors={"duplicate_bases": 0.05}),
     ]
